@@ -801,6 +801,15 @@ func (u *Unit) freshVal(st *State, t types.Type, name string) Val {
 		}
 		return sv
 	}
+	if at, ok := u.smallArray(t); ok && at.Len() >= 1 && !strings.Contains(name, ".") {
+		// a small array value that is not a field of a record (parameter, call result):
+		// its elements, one by one
+		av := &StructVal{T: t}
+		for i := int64(0); i < at.Len(); i++ {
+			av.Fields = append(av.Fields, u.freshVal(st, at.Elem(), fmt.Sprintf("%s.%d", name, i)))
+		}
+		return av
+	}
 	if tup, ok := t.(*types.Tuple); ok {
 		tv := &TupleVal{}
 		for i := 0; i < tup.Len(); i++ {
